@@ -1,20 +1,30 @@
 #!/bin/bash
 # usage: ./vsched.sh <property id> <quick|thorough|replay> [path]   (engine E2)
 # Generates the instrumentation overlay from /repo's CURRENT files, builds cmd/vsched with it, runs it.
-export GOFLAGS=-mod=mod GOPROXY=off GOSUMDB=off GOTOOLCHAIN=local GODEBUG=goindex=0
+export GOPROXY=off GOSUMDB=off GOTOOLCHAIN=local GODEBUG=goindex=0
 export VERIF_ROOT="$(cd "$(dirname "$0")" && pwd)"
 cd "$VERIF_ROOT" || exit 2
 id="$1"; tier="${2:-quick}"; path="$3"
+REPO="${VERIF_REPO:-/repo}"
+case "$GOFLAGS" in
+  *-modfile=*) ;;   # keep a -modfile handed down by check.sh
+  *) export GOFLAGS="-mod=mod"
+     if [ "$REPO" != /repo ]; then
+       mkdir -p .scratch
+       sed "s#=> /repo\$#=> $REPO#" go.mod > ".scratch/gov.$$.mod"; cp go.sum ".scratch/gov.$$.sum"
+       export GOFLAGS="-mod=mod -modfile=$VERIF_ROOT/.scratch/gov.$$.mod"
+     fi ;;
+esac
 mkdir -p bin evidence replays .scratch
 scratch="$(mktemp -d "$VERIF_ROOT/.scratch/e2-XXXXXX")" || exit 2
-trap 'rm -rf "$scratch"' EXIT
+trap 'rm -rf "$scratch" "$VERIF_ROOT/.scratch/gov.$$.mod" "$VERIF_ROOT/.scratch/gov.$$.sum"' EXIT
 GOVNR="$(go list -m -f '{{.Dir}}' github.com/orbs-network/govnr 2>/dev/null)"
 [ -d "$GOVNR" ] || GOVNR=/root/go/pkg/mod/github.com/orbs-network/govnr@v0.2.0
 go build -o "$scratch/vsinst" ./cmd/vsinst || { echo "cannot build vsinst" >&2; exit 2; }
 "$scratch/vsinst" "$scratch" \
-  /repo/mainloop.go /repo/workerloop.go /repo/state/state.go /repo/state/view_contexts.go \
-  /repo/services/electiontrigger/timer_based_election_trigger.go \
-  /repo/services/leanhelixterm/leanhelix_term.go /repo/services/termincommittee/term_in_committee.go \
+  "$REPO/mainloop.go" "$REPO/workerloop.go" "$REPO/state/state.go" "$REPO/state/view_contexts.go" \
+  "$REPO/services/electiontrigger/timer_based_election_trigger.go" \
+  "$REPO/services/leanhelixterm/leanhelix_term.go" "$REPO/services/termincommittee/term_in_committee.go" \
   "$GOVNR/forever.go" "$GOVNR/once.go" "$GOVNR/shutdown.go" \
   "static:$GOVNR/panic.go=$VERIF_ROOT/vs/govnr_panic.go.txt" > "$scratch/overlay.json" || { echo "instrumentation failed" >&2; exit 2; }
 go build -tags verif -overlay "$scratch/overlay.json" -o "$scratch/vsched" ./cmd/vsched 2> "$scratch/build.log" || { cat "$scratch/build.log" >&2; echo "build of the instrumented runtime failed" >&2; exit 2; }
